@@ -184,3 +184,8 @@ def run(ctx: Ctx, rep: Report, tier: str):
     from rules.common import alias as _alias
     from rules.C17 import C17 as _C17
     _alias(rep, ["C17.A6", "C17.A5", "C17.A7"], "C03.R9", "change stamps strictly increase (C17.A6): every user change outdates the last refresh of its entry and is therefore re-read and mirrored", 1, lambda: _C17(ctx, rep).a5_a7())
+    from rules.common import definition_holds
+    rep.rule("C03.R10", "what counts as a change to mirror: the definitions of needs_sync (side), is_path_change and is_creation", 3)
+    definition_holds(ctx, rep, "C03.R10", "SideState.needs_sync", "a one-sided change is not mirrored, or an unchanged side is mirrored again")
+    definition_holds(ctx, rep, "C03.R10", "SyncEntry.is_path_change", "a rename is not recognised as one (it is mirrored as delete + create, or not at all)")
+    definition_holds(ctx, rep, "C03.R10", "SyncEntry.is_creation", "a new object is not created on the peer, or an existing one is created again")
